@@ -140,7 +140,7 @@ def idiom_terms(v, spelling):
 
 
 class C02(QProp):
-    """Theorems (Props/C02.lean) on the Compound model + correspondence: `+`, `-`, `to` succeed iff both sides have the same base dimensions, however spelled; otherwise an error; a plain number adopts the quantity's unit in either order."""
+    """Theorems (Props/C02.lean): `Compound::factor`, `+`, `-` and the `to` step accept two non-empty proportional compounds iff the specification's base dimensions agree, whatever the spelling, otherwise `illegalOperation` / `illegalCast`; a plain number adopts the unit in either order. Correspondence: pairs of random and respelled unit expressions, cancelling idioms, plus a sweep built from the human reference table only (`1 name^p to base-SI`)."""
     id = "C02"
     module = "Anything.Props.C02"
     trusted = ["Spec.SI (dimension vectors, commensurability) is human input", "unit table extracted by the translator"]
@@ -182,7 +182,7 @@ class C02(QProp):
 
 
 class C03(QProp):
-    """Theorems (Props/C03.lean): conversion multiplies by scale(source)/scale(target) exactly, hence round trips, composition, linearity, prefixes as powers of ten, powers and products; correspondence over every unit and prefix as source and target."""
+    """Theorems (Props/C03.lean): a conversion multiplies by scale(source)/scale(target) with the specification's exact scale (non-zero by a table fact re-checked every run): round trips, via an intermediate, linearity, prefix = power of ten, powers, products. Correspondence: every unit word as source and target, random commensurable pairs, prefixed temperature scales."""
     id = "C03"
     module = "Anything.Props.C03"
     trusted = ["Spec.SI.scale over the extracted table", "unit table extracted by the translator"]
@@ -227,7 +227,7 @@ class C03(QProp):
 
 
 class C04(QProp):
-    """Theorems (Props/C04.lean): products, quotients and integer powers have SI value and dimensions equal to the product, quotient, power of the operands' SI readings whatever unit is displayed; correspondence on expression trees over quantities."""
+    """Theorems (Props/C04.lean): `Compound::mul` with every iteration of `reconstruct` preserves base dimensions and SI value; `*`, `/`, `^` refine Spec.SI.qmul/qdiv/qpow; zero divisor is an error; x^0 is the dimensionless one; a power leaving the i32 range is an error. Correspondence: expression trees over quantities, SI value and dimensions compared whatever unit is displayed."""
     id = "C04"
     module = "Anything.Props.C04"
     compare_unit = False
@@ -267,7 +267,7 @@ class C04(QProp):
 
 
 class C09(QProp):
-    """Theorems (Props/C09.lean): K/°C/°F conversions are the defining affine maps for every magnitude, compose and invert exactly; an offset scale in a compound, inverted or squared is refused (or read as an interval), never shifted by the zero point."""
+    """Theorems (Props/C09.lean): all ordered pairs of K/°C/°F with any SI prefixes and every magnitude convert through kelvin by the defining formulas; chains of any length compose; exactly invertible; an offset scale not alone with power one (source or target) is refused, products/quotients with one are refused. Correspondence: all pairs incl. prefixed spellings, chains, compound uses."""
     id = "C09"
     module = "Anything.Props.C09"
     trusted = ["Spec.SI.pointToKelvin over the extracted affine parameters"]
@@ -324,7 +324,7 @@ class C09(QProp):
 
 
 class C13(QProp):
-    """Theorems (Props/C13.lean): commutativity, associativity, distributivity, a-a = 0, a/a = 1 as corollaries of the SI refinement; correspondence evaluates both sides of every law on literals over the vocabulary and on shipped facts."""
+    """Theorems (Props/C13.lean): `+ - * /` on proportional quantities refine the specification's SI operations, hence commutativity, associativity, distributivity, a-a = 0, a/a = 1 for the evaluator's results; products stay proportional; every shipped fact is in scope (kernel check over the regenerated facts table). Offset scales excluded (recorded finding). Correspondence: both sides of every law on literals and shipped facts, all pairs of units in both orders, a reference-driven pair sweep."""
     id = "C13"
     module = "Anything.Props.C13"
     needs_db_tables = True
